@@ -1,7 +1,8 @@
-(* Safety (stateless monitors) of the trash-directory discovery code, parametric in the consumer `handle`:
-   if the monitor accepts every probe the scanner issues and the consumer is safe on every event the
-   scanner can produce, the whole scan is safe. *)
-From TV Require Import Prelude.Str Prelude.PosixPath Prog.Prog Cmd.Put Cmd.Scan Proofs.ProgProofs.
+(* The trash-directory discovery code and the shared readers, verified once for every program logic
+   (PLogic.plogic), parametric in the consumer `handle`: if the logic accepts every probe the scanner
+   issues and the consumer is fine on every event the scanner can produce, the whole scan is fine. *)
+From TV Require Import Prelude.Str Prelude.PosixPath Codec.DateFmt Codec.TrashInfo Logic.Calendar
+  Prog.Prog Cmd.Put Cmd.Scan Cmd.Empty Proofs.ProgProofs Proofs.PLogic.
 
 Definition scan_op (o : op) : bool :=
   match o with
@@ -10,98 +11,146 @@ Definition scan_op (o : op) : bool :=
   end.
 
 Section ScanSafe.
-Variable ok : op -> res -> bool.
-Hypothesis Hprobe : forall o r, scan_op o = true -> ok o r = true.
+Variable L : plogic.
+Hypothesis Hprobe : forall o, scan_op o = true -> OKop L o.
+Notation TT := (T L).
 
-Ltac probe := intros; apply Hprobe; reflexivity.
+Ltac aret := first [apply T_ret; exact I | apply T_throw].
+Ltac probe := apply Hprobe; reflexivity.
 
-Lemma safe_volume_walk fuel : forall path, safe ok (volume_walk fuel path) (fun _ => True).
+Lemma safe_volume_walk fuel : forall path, TT (volume_walk fuel path) (fun _ => True).
 Proof.
-  induction fuel as [|f IH]; simpl; intros path; [exact I|].
-  destruct (str_eqb path (dirname path)); [exact I|].
-  eapply safe_bind; [apply safe_call_bool; probe|]. intros m _. destruct m; [exact I|apply IH].
+  induction fuel as [|f IH]; simpl; intros path; [aret|].
+  destruct (str_eqb path (dirname path)); [aret|].
+  eapply T_bind; [apply T_call_bool; probe|]. intros m _. destruct m; [aret|apply IH].
 Qed.
-Lemma safe_volume_of path : safe ok (volume_of path) (fun _ => True).
+Lemma safe_volume_of path : TT (volume_of path) (fun _ => True).
 Proof.
-  unfold volume_of. eapply safe_bind; [apply safe_call_str; probe|]. intros a _. apply safe_volume_walk.
+  unfold volume_of. eapply T_bind; [apply T_call_str; probe|]. intros a _. apply safe_volume_walk.
 Qed.
-Lemma safe_is_sticky_dir path : safe ok (is_sticky_dir path) (fun _ => True).
+Lemma safe_is_sticky_dir path : TT (is_sticky_dir path) (fun _ => True).
 Proof.
-  unfold is_sticky_dir. eapply safe_bind; [apply safe_call_bool; probe|]. intros d _. destruct d; [|exact I].
-  eapply safe_bind; [apply safe_call_stat; probe|]. intros; exact I.
+  unfold is_sticky_dir. eapply T_bind; [apply T_call_bool; probe|]. intros d _. destruct d; [|aret].
+  eapply T_bind; [apply T_call_stat; probe|]. intros; aret.
 Qed.
-Lemma safe_valid_to_be_read path : safe ok (valid_to_be_read path) (fun _ => True).
+Lemma safe_valid_to_be_read path : TT (valid_to_be_read path) (fun _ => True).
 Proof.
-  unfold valid_to_be_read. eapply safe_bind; [apply safe_call_bool; probe|]. intros e _. destruct e; simpl; [|exact I].
-  eapply safe_bind; [apply safe_is_sticky_dir|]. intros s _. destruct s; simpl; [|exact I].
-  eapply safe_bind; [apply safe_call_bool; probe|]. intros l _. destruct l; exact I.
+  unfold valid_to_be_read. eapply T_bind; [apply T_call_bool; probe|]. intros e _. destruct e; simpl; [|aret].
+  eapply T_bind; [apply safe_is_sticky_dir|]. intros s _. destruct s; simpl; [|aret].
+  eapply T_bind; [apply T_call_bool; probe|]. intros l _. destruct l; aret.
 Qed.
 
 Lemma safe_fold_prog {A S} (l : list A) (body : S -> A -> prog S) :
-  (forall s x, In x l -> safe ok (body s x) (fun _ => True)) -> forall s, safe ok (fold_prog l body s) (fun _ => True).
+  (forall s x, In x l -> TT (body s x) (fun _ => True)) -> forall s, TT (fold_prog l body s) (fun _ => True).
 Proof.
-  induction l as [|x l IH]; simpl; intros Hb s; [exact I|].
-  eapply safe_bind; [apply Hb; auto|]. intros s' _. apply IH. auto.
+  induction l as [|x l IH]; simpl; intros Hb s; [aret|].
+  eapply T_bind; [apply Hb; auto|]. intros s' _. apply IH. auto.
 Qed.
 
+Lemma safe_fold_inv {A S} (l : list A) (body : S -> A -> prog S) (Inv : S -> Prop) :
+  (forall s x, In x l -> Inv s -> TT (body s x) Inv) -> forall s, Inv s -> TT (fold_prog l body s) Inv.
+Proof.
+  induction l as [|x l IH]; simpl; intros Hb s Hs; [apply T_ret; exact Hs|].
+  eapply T_bind; [apply Hb; auto|]. intros s' Hs'. apply IH; auto.
+Qed.
+
+Lemma safe_entries_if_dir_exists p : TT (entries_if_dir_exists p) (fun l => forallb valid_name l = true).
+Proof.
+  unfold entries_if_dir_exists. eapply T_bind; [apply T_call_bool; probe|].
+  intros e _. destruct e; [apply T_listdir; probe|apply T_ret; reflexivity].
+Qed.
+
+Lemma safe_list_trashinfo td : TT (list_trashinfo td)
+  (fun l => forall p, In p l -> exists x, valid_name x = true /\ is_trashinfo_name x = true /\ p = join2 (join2 td s_info) x).
+Proof.
+  unfold list_trashinfo. eapply T_bind; [apply safe_entries_if_dir_exists|].
+  intros es Hes. apply T_ret. intros p Hp. apply in_map_iff in Hp. destruct Hp as [x [Hx Hin]].
+  apply filter_In in Hin. destruct Hin as [Hin Hti]. exists x. split; [|split; auto].
+  rewrite forallb_forall in Hes. apply Hes. exact Hin.
+Qed.
+
+Section Handler.
 Context {S : Type}.
 Variable handle : S -> scan_event -> prog S.
 Variable EV : scan_event -> Prop.
-Hypothesis Hhandle : forall s ev, EV ev -> safe ok (handle s ev) (fun _ => True).
-
-Section Vol.
+Variable Inv : S -> Prop.
+Hypothesis Hhandle : forall s ev, Inv s -> EV ev -> TT (handle s ev) Inv.
 Variable uid : N.
 Hypothesis Htop : forall v, EV (Found (join3 v ($".Trash") (dec_of_N uid)) v)
                           /\ EV (SkippedNotSticky (join3 v ($".Trash") (dec_of_N uid)))
                           /\ EV (SkippedSymlink (join3 v ($".Trash") (dec_of_N uid)))
                           /\ EV (Found (join2 v ($".Trash-" ++ dec_of_N uid)) v).
 
-Lemma safe_scan_volume s v : safe ok (scan_volume handle uid s v) (fun _ => True).
+Lemma safe_scan_volume s v : Inv s -> TT (scan_volume handle uid s v) Inv.
 Proof.
-  unfold scan_volume. destruct (Htop v) as [H1 [H2 [H3 H4]]].
-  eapply safe_bind; [apply safe_valid_to_be_read|]. intros r _.
-  eapply safe_bind with (Q' := fun _ => True).
-  - destruct r; try (apply Hhandle; assumption). exact I.
-  - intros s1 _. eapply safe_bind; [apply safe_call_bool; probe|]. intros d _.
-    destruct d; [apply Hhandle; assumption|exact I].
+  intros Hs. unfold scan_volume. destruct (Htop v) as [H1 [H2 [H3 H4]]].
+  eapply T_bind; [apply safe_valid_to_be_read|]. intros r _.
+  eapply T_bind with (Q' := Inv).
+  - destruct r; try (apply Hhandle; assumption). apply T_ret; exact Hs.
+  - intros s1 Hs1. eapply T_bind; [apply T_call_bool; probe|]. intros d _.
+    destruct d; [apply Hhandle; assumption|apply T_ret; exact Hs1].
 Qed.
 
 Lemma safe_each_mount_point (body : S -> str -> prog S) l :
-  (forall s m, safe ok (body s m) (fun _ => True)) -> forall s, safe ok (each_mount_point l body s) (fun _ => True).
+  (forall s m, Inv s -> TT (body s m) Inv) -> forall s, Inv s -> TT (each_mount_point l body s) Inv.
 Proof.
-  intros Hb. induction l as [|m l IH]; simpl; intros s; [exact I|].
-  eapply safe_bind; [apply safe_call_bool; probe|]. intros d _.
-  eapply safe_bind with (Q' := fun _ => True); [destruct d; [apply Hb|exact I]|]. intros s' _. apply IH.
+  intros Hb. induction l as [|m l IH]; simpl; intros s Hs; [apply T_ret; exact Hs|].
+  eapply T_bind; [apply T_call_bool; probe|]. intros d _.
+  eapply T_bind with (Q' := Inv); [destruct d; [apply Hb; exact Hs|apply T_ret; exact Hs]|]. intros s' Hs'. apply IH; exact Hs'.
 Qed.
 
-Lemma safe_for_each_volume env s : safe ok (for_each_volume env (scan_volume handle uid) s) (fun _ => True).
+Lemma safe_for_each_volume env s : Inv s -> TT (for_each_volume env (scan_volume handle uid) s) Inv.
 Proof.
-  unfold for_each_volume. destruct (env_volumes env).
-  - apply safe_fold_prog. intros; apply safe_scan_volume.
-  - eapply safe_bind; [apply safe_call_list; probe|]. intros _ _.
-    eapply safe_bind; [apply safe_call_list; probe|]. intros l _.
-    apply safe_each_mount_point. intros; apply safe_scan_volume.
+  intros Hs. unfold for_each_volume. destruct (env_volumes env).
+  - apply safe_fold_inv; [intros; apply safe_scan_volume; assumption|exact Hs].
+  - eapply T_bind; [apply T_call_list; probe|]. intros _ _.
+    eapply T_bind; [apply T_call_list; probe|]. intros l _.
+    apply safe_each_mount_point; [intros; apply safe_scan_volume; assumption|exact Hs].
 Qed.
 
 Lemma safe_scan_trash_dirs env s :
   (forall p, In p (home_trash_dir_path_from_env env) -> EV (Found p [c_slash])) ->
-  safe ok (scan_trash_dirs handle env uid s) (fun _ => True).
+  Inv s -> TT (scan_trash_dirs handle env uid s) Inv.
 Proof.
-  intros Hhome. unfold scan_trash_dirs.
-  eapply safe_bind; [apply safe_fold_prog; intros s0 p Hp; apply Hhandle; auto|].
-  intros s1 _. apply safe_for_each_volume.
+  intros Hhome Hs. unfold scan_trash_dirs.
+  eapply T_bind; [apply safe_fold_inv; [intros s0 p Hp Hs0; apply Hhandle; auto|exact Hs]|].
+  intros s1 Hs1. apply safe_for_each_volume. exact Hs1.
 Qed.
 
 Lemma safe_select_trash_dirs user_dirs env s :
   (forall p, In p (home_trash_dir_path_from_env env) -> EV (Found p [c_slash])) ->
   (forall d v, In d user_dirs -> EV (Found d v)) ->
-  safe ok (select_trash_dirs handle user_dirs env uid s) (fun _ => True).
+  Inv s -> TT (select_trash_dirs handle user_dirs env uid s) Inv.
 Proof.
-  intros Hhome Huser. unfold select_trash_dirs.
-  eapply safe_bind with (Q' := fun _ => True).
-  - destruct user_dirs; [apply safe_scan_trash_dirs; auto|exact I].
-  - intros s1 _. apply safe_fold_prog. intros s0 d Hd.
-    eapply safe_bind; [apply safe_volume_of|]. intros v _. apply Hhandle. auto.
+  intros Hhome Huser Hs. unfold select_trash_dirs.
+  eapply T_bind with (Q' := Inv).
+  - destruct user_dirs; [apply safe_scan_trash_dirs; auto|apply T_ret; exact Hs].
+  - intros s1 Hs1. apply safe_fold_inv; [|exact Hs1]. intros s0 d Hd Hs0.
+    eapply T_bind; [apply safe_volume_of|]. intros v _. apply Hhandle; auto.
 Qed.
-End Vol.
+End Handler.
+
+(* ---- the readers of trash-empty ---- *)
+Hypothesis Hread : forall p, OKop L (ReadText p).
+Hypothesis Hnow : OKop L Now.
+Hypothesis Hlog : forall l e t, OKop L (Log l e t).
+
+Lemma safe_get_now_value env : TT (get_now_value env) (fun _ => True).
+Proof.
+  unfold get_now_value. destruct (env_get env s_TRASH_DATE) as [v|]; [|apply T_call_date; apply Hnow].
+  destruct (strptime_body v); [aret|].
+  apply T_seq; [apply T_call_unit; apply Hlog|apply T_call_date; apply Hnow].
+Qed.
+
+Lemma safe_ok_to_delete o p : TT (ok_to_delete o p) (fun _ => True).
+Proof.
+  unfold ok_to_delete. destruct (eo_days o) as [days|]; [|aret].
+  eapply T_bind with (Q' := fun _ => True).
+  - apply T_catch.
+    + eapply T_bind; [apply T_call_str; apply Hread|]. intros; aret.
+    + intros e p0 He. destruct (is_OSError e); [inversion He; aret|]. destruct e; inversion He; aret.
+  - intros r _. destruct r as [contents|]; [|aret].
+    eapply T_bind; [apply safe_get_now_value|]. intros now _.
+    destruct (parse_deletion_date contents); [|aret]. destruct (older_than days now d); aret.
+Qed.
 End ScanSafe.
